@@ -165,6 +165,16 @@ CellOrientation cellOrientationInRow(CellRowPolarity cellPolarity,
 
 namespace {
 
+/**
+ * @brief Return the effort if it is in the supported range, throw otherwise
+ */
+int checkedEffort(int effort) {
+  if (effort < 1 || effort > 9) {
+    throw std::runtime_error("Placement effort must be between 1 and 9");
+  }
+  return effort;
+}
+
 double interpolateEffort(double minVal, double maxVal, int effort,
                          int minEffort = 1, int maxEffort = 9) {
   assert(minEffort < maxEffort);
@@ -181,11 +191,10 @@ double interpolateLogEffort(double minVal, double maxVal, int effort,
 }  // namespace
 
 ColoquinteParameters::ColoquinteParameters(int effort, int seed)
-    : global(effort), legalization(effort), detailed(effort), seed(seed) {
-  if (effort < 1 || effort > 9) {
-    throw std::runtime_error("Placement effort must be between 1 and 9");
-  }
-}
+    : global(checkedEffort(effort)),
+      legalization(effort),
+      detailed(effort),
+      seed(seed) {}
 
 RoughLegalizationParameters::RoughLegalizationParameters(int effort) {
   costModel = LegalizationModel::L1;
@@ -204,7 +213,7 @@ RoughLegalizationParameters::RoughLegalizationParameters(int effort) {
   // TODO: find best parameter
   targetBlending = 0.0;
   int squareSizeArray[9] = {1, 2, 3, 3, 3, 4, 4, 4, 5};
-  squareReoptSize = squareSizeArray[effort - 1];
+  squareReoptSize = squareSizeArray[checkedEffort(effort) - 1];
   squareReoptOverlap = 1;
 }
 
@@ -219,7 +228,7 @@ PenaltyParameters::PenaltyParameters(int effort) {
   targetBlending = 1.0;
   double updateFactorArray[9] = {1.23, 1.23, 1.23, 1.22, 1.22,
                                  1.22, 1.22, 1.17, 1.07};
-  updateFactor = updateFactorArray[effort - 1];
+  updateFactor = updateFactorArray[checkedEffort(effort) - 1];
 }
 
 ContinuousModelParameters::ContinuousModelParameters(
@@ -245,7 +254,7 @@ GlobalPlacerParameters::GlobalPlacerParameters(int effort)
   // Parameters that vary with effort here
   double gapToleranceArray[9] = {0.13,  0.13,  0.058, 0.038, 0.026,
                                  0.026, 0.026, 0.026, 0.026};
-  gapTolerance = gapToleranceArray[effort - 1];
+  gapTolerance = gapToleranceArray[checkedEffort(effort) - 1];
   check();
 }
 
@@ -268,6 +277,7 @@ std::string GlobalPlacerParameters::toString() const {
 }
 
 DetailedPlacerParameters::DetailedPlacerParameters(int effort) {
+  checkedEffort(effort);
   nbPasses = std::round(interpolateLogEffort(2.0, 8.0, effort));
   localSearchNbNeighbours = std::round(interpolateLogEffort(2.0, 16.0, effort));
   localSearchNbRows = std::round(interpolateEffort(1.0, 4.0, effort));
